@@ -129,6 +129,8 @@ struct C19 : Scenario {
       if (anyvan && (got == "-ERR unable to unlink all deleted messages\r\n+OK \r\n" || got.compare(0, 5, "-ERR ") == 0)) return true;
     }
     if (err_ok) return got.compare(0, 5, "-ERR ") == 0 && got.size() >= 7 && got.compare(got.size() - 2, 2, "\r\n") == 0 && got.find("\r\n") == got.size() - 2;
+    // a bare "+OK" status line may carry any human-readable text (RFC 1939 section 3); only lines whose content the RFC defines are compared
+    if (want.compare(0, 6, "+OK \r\n") == 0) { size_t e = got.find("\r\n"); return got.compare(0, 3, "+OK") == 0 && e != std::string::npos && got.substr(e + 2) == want.substr(6); }
     size_t q = want.find('?'), h = want.find('#');
     if (q != std::string::npos && want.compare(0, 4, "+OK ") == 0 && want[4] == '?') { size_t sp = got.find(' ', 4); return got.compare(0, 4, "+OK ") == 0 && sp != std::string::npos && got.substr(sp) == want.substr(5); }
     if (h != std::string::npos && want == "+OK #\r\n") { if (got.compare(0, 4, "+OK ") != 0 || got.size() < 7) return false; for (size_t i = 4; i + 2 < got.size(); i++) if (!isdigit((unsigned char) got[i])) return false; return true; }
@@ -155,7 +157,7 @@ struct C19 : Scenario {
   bool on_quiescent(World &w) override {
     if (mode == "popup") return popup_quiescent(w);
     if (root) return false;
-    if (!greeted) { if (out->data != "+OK \r\n") { w.violation("C19:greeting", "greeting is [" + esc(out->data) + "]"); return false; } greeted = true; outpos = out->data.size(); }
+    if (!greeted) { if (out->data.compare(0, 3, "+OK") != 0 || out->data.find("\r\n") != out->data.size() - 2) { w.violation("C19:greeting", "greeting is [" + esc(out->data) + "]"); return false; } greeted = true; outpos = out->data.size(); }
     else verify_last(w);
     if (w.aborted || quit_sent || eof_sent || desync) return false;
     // stop at states that another session already extended (not while replaying the prefix that leads here)
